@@ -3,6 +3,7 @@ package checks
 import (
 	"bytes"
 	"context"
+	"errors"
 	"fmt"
 	"testing"
 
@@ -117,6 +118,94 @@ func TestC20Rewind(t *testing.T) {
 		}
 		rec.Case(h.Sum(), multi, func() interface{} {
 			return map[string]interface{}{"stream": m.describe(), "rewind_points": nrew, "auto_detect": auto, "api_before_rewind": fmt.Sprint([]string{"NextData", "NextPacket", "mixed"}[mode])}
+		})
+	})
+}
+
+// c20Outcomes drains NextData: canonical items, "E" for an error ("E:reader" when it wraps the injected reader failure),
+// "END" for ErrNoMorePackets.
+func c20Outcomes(d *astits.Demuxer, limit int) []string {
+	var out []string
+	for i := 0; i < limit; i++ {
+		x, err := d.NextData()
+		switch {
+		case err == astits.ErrNoMorePackets:
+			return append(out, "END")
+		case errors.Is(err, errInjected):
+			out = append(out, "E:reader")
+		case err != nil:
+			out = append(out, "E")
+		default:
+			out = append(out, obs.Canon(x))
+		}
+	}
+	return append(out, "NO-END")
+}
+
+// TestC20Hostile: Rewind on inputs and readers that produce errors. The streams carry no PMT PIDs, so that the program
+// map (which Rewind keeps, hence the property's "PAT precedes PMTs") plays no part.
+func TestC20Hostile(t *testing.T) {
+	rec := obs.NewRecorder("C20", "rewind_hostile", "rapid: streams without PMT PIDs on a seekable reader, made hostile in one of three ways: the first sync byte corrupted (auto-detection fails at first), 1..400 garbage bytes in front (auto-detection), or a reader that fails ONCE at a drawn offset (explicit or detected size); Rewind after EVERY number k of NextData/NextPacket calls; oracle: Rewind returns (0, nil) and the sequence of items, errors and ErrNoMorePackets afterwards equals that of a fresh Demuxer on a reader in the same state (the one-shot failure already spent or still to come); non-trivial = every case; distinct by input bytes + variant")
+	defer rec.Flush()
+	rapid.Check(t, func(t *rapid.T) {
+		o := defaultStreamOpts()
+		o.smallPSI, o.maxPESLen, o.maxUnits, o.maxPMTPIDs = true, 500, 2, 0
+		m := drawStream(t, o)
+		stream := append(ref.NullPacket(0xff).MustEncode(), m.bytes()...)
+		if len(stream) > 188*40 {
+			stream = stream[:188*40]
+		}
+		variant := gen.Uniform(t, 3, "variant")
+		auto := true
+		failAt := -1
+		switch variant {
+		case 0:
+			stream[0] ^= byte(1 << uint(gen.Uniform(t, 8, "syncbit")))
+		case 1:
+			g := gen.Bytes(t, rapid.IntRange(1, 400).Draw(t, "garbagelen"), "garbage")
+			stream = append(g, stream...)
+		case 2:
+			auto = gen.Bool(t, "auto")
+			failAt = rapid.IntRange(0, len(stream)-1).Draw(t, "failat")
+		}
+		var opts []func(*astits.Demuxer)
+		if !auto {
+			opts = append(opts, astits.DemuxerOptPacketSize(188))
+		}
+		usePacket := rapid.SliceOfN(rapid.Bool(), 16, 16).Draw(t, "usepacket")
+		limit := len(stream)/188 + 80
+		total := len(stream)/188 + 12
+		n := 0
+		for k := 0; k <= total; k++ {
+			fr := &faultReader{data: stream, failAt: failAt, oneShot: true}
+			d := astits.NewDemuxer(context.Background(), seekFaultReader{fr}, opts...)
+			for i := 0; i < k; i++ {
+				if usePacket[i%16] {
+					_, _ = d.NextPacket()
+				} else {
+					_, _ = d.NextData()
+				}
+			}
+			off, err := d.Rewind()
+			if off != 0 || err != nil {
+				t.Fatalf("Rewind after %d calls returned (%d, %v), want (0, nil)", k, off, err)
+			}
+			spent := fr.tripped
+			got := c20Outcomes(d, limit)
+			fresh := &faultReader{data: stream, failAt: failAt, oneShot: true, tripped: spent}
+			want := c20Outcomes(astits.NewDemuxer(context.Background(), seekFaultReader{fresh}, opts...), limit)
+			if !equalStrings(got, want) {
+				t.Fatalf("variant %d (auto-detect=%v, reader fails once at %d, already failed before the rewind=%v): after Rewind following %d calls the outcomes are %v, a fresh demuxer gives %v\nstream: %s", variant, auto, failAt, spent, k, shortOutcomes(got), shortOutcomes(want), m.describe())
+			}
+			n++
+		}
+		rec.ClassN("rewind_points", int64(n))
+		rec.Class([]string{"first_sync_byte_corrupted", "garbage_prefix", "reader_failing_once"}[variant])
+		h := obs.NewHasher()
+		h.Bytes(stream)
+		h.Int(int64(variant*100000 + failAt))
+		rec.Case(h.Sum(), true, func() interface{} {
+			return map[string]interface{}{"variant": []string{"first_sync_byte_corrupted", "garbage_prefix", "reader_failing_once"}[variant], "input_bytes": len(stream), "rewind_points": n}
 		})
 	})
 }
